@@ -48,6 +48,11 @@ SwapColor(p) == IF p = 0 THEN 0 ELSE IF p <= 6 THEN p + 6 ELSE p - 6
 Mirror(p) == [b |-> [s \in Sq |-> SwapColor(p.b[FlipRank(s)])], stm |-> 1 - p.stm,
               cr |-> <<p.cr[3], p.cr[4], p.cr[1], p.cr[2]>>, ep |-> p.ep, hmc |-> p.hmc, fmn |-> p.fmn]
 ThePos == IF col = 0 THEN PosW ELSE Mirror(PosW)
-Emit == IF Distinct /\ OneKingEach(ThePos) /\ Valid(ThePos) /\ ImplStage(ThePos) = "ok"
+\* Cfg.unsound = 1: also the positions whose ep file contradicts the check on the mover (records a reader must refuse
+\* naming the en-passant field); otherwise only positions the staged validator model accepts
+Emit == IF Distinct /\ OneKingEach(ThePos)
+           /\ (IF "unsound" \in DOMAIN Cfg /\ Cfg.unsound = 1
+               THEN KingsApart(ThePos) /\ OppNotInCheck(ThePos) /\ EpBacked(ThePos)
+               ELSE Valid(ThePos) /\ ImplStage(ThePos) = "ok")
         THEN PrintT(<<"GEN", CanonFen(ThePos, TRUE)>>) ELSE TRUE
 =============================================================================
